@@ -67,6 +67,11 @@ def gen_members(rng, nmax=60):
             name = "p" * rng.choice([rng.randrange(20, 120), rng.randrange(120, 156), 151, 152, 153, 154, 155]) + "/" + "s" * rng.randrange(1, 85) + base
             m["longname"] = True
             m["prefix"] = True
+        elif j == 0 and kind in ("file", "std", "empty") and rng.random() < 0.15:
+            # the archive's first bytes are its first member's name: one that begins like a compressed stream (gzip 1f 8b,
+            # bzip2 "BZh", xz fd "7zXZ") is still a plain archive
+            name = rng.choice(["\x1f\udc8b", "\x1f\udc8b\x08", "BZh91AY&SY", "\udcfd7zXZ"]) + base
+            m["magic_like_name"] = True
         if name in names or name.rstrip("/") in names:
             continue
         names.add(name.rstrip("/"))
@@ -326,6 +331,7 @@ def run(case: dict, ctx) -> dict:
         res["viol"].append({"what": "handle mutated", "mech": "c09.handle", "detail": {}})
     kinds = [m["kind"] for m in members]
     cnt["gzip_cases"] = int(gz)
+    cnt["first_name_begins_like_a_compressed_stream"] = int(bool(members and members[0].get("magic_like_name")))
     cnt["longname_members"] = sum(1 for m in members if m.get("longname"))
     cnt["members_with_data_before_their_header"] = sum(1 for m in members if m.get("alias_of") is not None)
     cnt["members_sized_by_pax_record_only"] = sum(1 for m in members if m.get("hdr_size_zero"))
